@@ -30,7 +30,7 @@ REQUIRED_BRANCHES = ['single_on_first_knot', 'single_on_inner_knot', 'single_on_
                      'pred_fluxes', 'chi2_big_compared', 'range_other_unit', 'exact_multiple', 'format1', 'format2', 'dmin_eq_dmax', 'multi_distance', 'beyond_largest', 'inside_table',
                      'flux_monotone', 'flux_arbitrary', 'clamp_low', 'clamp_high', 'interior', 'lo_eq_hi',
                      'best_first', 'best_last', 'best_inner', 'limit_violated', 'limit_ok', 'flag4', 'flag0or9',
-                     'theta_dmin_on_knot']
+                     'theta_dmin_on_knot', 'theta_dmin_on_knot_strict']
 ASSUMPTIONS = ['IEEE rounding is not modelled: av / chi2 are compared with a 1e-9 x (condition scale) budget, sc with 1e-9',
                'the code takes log10 of 10**grid; the difference from the exact grid value is part of the sc budget',
                'decisions closer than 1e-7 to their threshold (ceil of the grid length, argmin gap between the two best '
@@ -60,6 +60,37 @@ def exact_product(theta, dkpc):
     return F(dpc) == F(dkpc) * 1000 and F(theta * dpc) == F(theta) * F(dpc)
 
 
+def dec(x):
+    """the decimal number a float was written as (shortest repr), as an exact rational"""
+    return common.Fraction(repr(float(x)))
+
+
+def lower_bound(case):
+    """the quantifier's 'theta*dmin not below the smallest aperture', evaluated exactly:
+    in_quant   - it holds (with equality or above) in exact rational arithmetic on the floats given, or on the decimal
+                 numbers they were written as (2 arcsec x 0.7 kpc = 1400 AU);
+    near       - some band is within MARGIN of equality;
+    accept_ref - the radius at the first trial distance, evaluated in float64 the way the property states it
+                 (AU = arcsec x pc; first distance = dmin, through 10**log10 unless the range is degenerate), is not
+                 below the table either - then the tabulated value is due and an exception is a failure;
+    knots      - per band the first knot to send to the exact model: when the float knot exceeds the exact product by
+                 less than 1e-12 relative (decimal equality, binary sub-ulp difference) the exact product itself"""
+    F = common.Fraction
+    dmin = case['dmin']
+    d0 = dmin if dmin == case['dmax'] else float(10. ** np.log10(dmin))
+    dpc = float((d0 * u.kpc).to(u.pc).value)
+    in_quant, near, accept, knots = True, False, True, []
+    for t, a in zip(case['thetas'], case['aps']):
+        r = F(t) * F(dmin) * 1000
+        e = r - F(a[0])
+        dm = dec(t) * dec(dmin) * 1000 - dec(a[0])
+        in_quant = in_quant and (e >= 0 or dm >= 0)
+        near = near or abs(e) <= F(MARGIN) * F(a[0])
+        accept = accept and t * dpc >= a[0]
+        knots.append(r if (e < 0 and -e <= F(a[0]) / 10 ** 12) else a[0])
+    return dict(in_quant=in_quant, near=near, accept_ref=accept, knots=knots)
+
+
 def gen_case(rng, directed=None):
     fmt = rng.choice([1, 2])
     rkind = rng.choice(['inside', 'beyond', 'beyond', 'mixed', 'single'])
@@ -68,6 +99,8 @@ def gen_case(rng, directed=None):
         fmt, rkind, akind = directed[:3]
     elif rng.random() < 0.06:
         rkind = rng.choice(KNOT)
+    elif rng.random() < 0.06:
+        rkind = 'on_knot'
     nb = 1 if rng.random() < 0.08 else rng.randint(2, 5)
     nm = rng.randint(1, 6)
     nap = rng.randint(2, 8)
@@ -87,6 +120,13 @@ def gen_case(rng, directed=None):
     # distance range and step
     step = rng.choice([0.005, 0.01, 0.02, 0.025, 0.05, 0.1, 0.2, 0.5, nice(rng, 0.005, 0.5, 2)])
     dmin = nice(rng, 0.05, 20., 3)
+    if rkind == 'on_knot':
+        # decimal numbers; for the 'accept' variant the log round trip of dmin is exact in floats
+        want = (directed[4].get('knot_accept') if directed and len(directed) > 4 else rng.random() < 0.6)
+        for _ in range(500):
+            dmin = nice(rng, 0.05, 20., rng.choice([1, 2, 2, 3]))
+            if not want or float(10. ** np.log10(dmin)) == dmin:
+                break
     if rkind in KNOT:
         dmin = rng.choice([0.03125, 0.0625, 0.125, 0.25, 0.5, 0.75, 1., 1.5, 2., 4., 5., 8., 10.])   # exact in binary
     if rkind in SINGLE:
@@ -105,7 +145,7 @@ def gen_case(rng, directed=None):
         dmin = rng.choice([1., 10., 0.1])
         dmax = dmin * rng.choice([10., 100.])
     # the range may be given in any length unit; the model works with the kpc floats the code derives from it
-    dunit = 'kpc' if (exact or rkind in KNOT or rng.random() < 0.5) else rng.choice(['pc', 'Mpc', 'cm', 'lyr', 'm'])
+    dunit = 'kpc' if (exact or rkind in KNOT or rkind == 'on_knot' or rng.random() < 0.5) else rng.choice(['pc', 'Mpc', 'cm', 'lyr', 'm'])
     if dunit != 'kpc':
         from astropy import units as _u
         fac = (1. * _u.kpc).to(_u.Unit(dunit)).value
@@ -126,10 +166,17 @@ def gen_case(rng, directed=None):
             t = rng.choice([0.5, 1., 1.5, 2., 2.5, 3., 4., 5., 8., 10., 20.])
             assert exact_product(t, dmin)
             thetas.append(t)
+    if rkind == 'on_knot':
+        # theta x dmin x 1000 evaluated in floats is the decimal product: the smallest aperture IS theta*dmin
+        for j in range(nb):
+            for _ in range(200):
+                if dec(thetas[j]) * dec(dmin) * 1000 == common.Fraction(thetas[j] * (dmin * 1000.)):
+                    break
+                thetas[j] = nice(rng, 0.5, 30., 2)
     if opts.get('same_theta') or (not directed and rng.random() < 0.15):
         thetas = [thetas[0]] * nb        # one angular aperture for all bands (tables may still differ)
     # the aperture radii may be given in any angle unit; the model works with the arcsec floats the code derives
-    theta_unit = opts.get('theta_unit') or ('arcsec' if (directed or rkind in KNOT or rng.random() < 0.6) else rng.choice(['arcmin', 'deg', 'rad']))
+    theta_unit = opts.get('theta_unit') or ('arcsec' if (directed or rkind in KNOT or rkind == 'on_knot' or rng.random() < 0.6) else rng.choice(['arcmin', 'deg', 'rad']))
     thetas_given = list(thetas)
     if theta_unit != 'arcsec':
         thetas_given = [float('%.3g' % v) for v in (np.array(thetas) * u.arcsec).to(u.Unit(theta_unit)).value]
@@ -154,7 +201,7 @@ def gen_case(rng, directed=None):
         rmin = theta_lo * dmin * 1000.
         rmax = theta_hi * dmax * 1000.
         if rkind == 'on_knot':
-            a0 = rmin
+            a0 = theta_lo * (dmin * 1000.)
         else:
             a0 = float('%.3g' % (rmin * rng.uniform(0.2, 0.95)))
             if not a0 * (1 + 1e-6) < rmin:
@@ -276,6 +323,11 @@ DIRECTED = [(1, 'inside', 'interior'), (2, 'beyond', 'clamp_low'), (1, 'beyond',
             (1, 'inside', 'wide', None, dict(ext_unit='cm')),
             (1, 'beyond', 'wide', None, dict(flux_unit='Jy')), (2, 'inside', 'interior', None, dict(flux_unit='Jy')),
             (2, 'beyond', 'wide', None, dict(flux_unit='Jy', named=True)), (1, 'mixed', 'interior', None, dict(flux_unit='uJy')),
+            (1, 'on_knot', 'wide', None, dict(knot_accept=True)), (2, 'on_knot', 'interior', None, dict(knot_accept=True)),
+            (1, 'on_knot', 'interior', None, dict(knot_accept=True)), (2, 'on_knot', 'wide', None, dict(knot_accept=True)),
+            (1, 'on_knot', 'wide', None, dict(knot_accept=True)), (2, 'on_knot', 'wide', None, dict(knot_accept=True)),
+            (1, 'on_knot', 'interior', None, dict(knot_accept=True)), (1, 'on_knot', 'wide', None, dict(knot_accept=True)),
+            (1, 'on_knot', 'wide', None, dict(knot_accept=False)), (2, 'on_knot', 'wide', None, dict(knot_accept=False)),
             (1, 'knot_first', 'wide'), (2, 'knot_first', 'interior'), (1, 'knot_first', 'interior'), (2, 'knot_first', 'wide'),
             (1, 'knot_inner', 'wide'), (2, 'knot_inner', 'interior'), (1, 'knot_last', 'wide'), (2, 'knot_last', 'interior'),
             (1, 'inside', 'wide', None, dict(rebuild='same')), (2, 'beyond', 'interior', None, dict(rebuild='same')),
@@ -382,6 +434,7 @@ def build(case, d):
 
 def model_side(case):
     _, etab, ev, ewavs = ext_numbers(case)
+    lb = lower_bound(case)
     line = ['fit3', rat(case['av'][0]), rat(case['av'][1]), rat(ev), str(len(etab))]
     for w, c in zip(etab, case['tab_chi']):
         line += [rat(w), rat(c)]
@@ -389,7 +442,7 @@ def model_side(case):
     line.append(rats(case['thetas']))
     line.append(str(len(case['wavs'])))
     for j in range(len(case['wavs'])):
-        line.append(rats(case['aps'][j]))
+        line.append(rats([lb['knots'][j]] + list(case['aps'][j][1:])))
         line.append(str(len(case['flux'][j])))
         for row in case['flux'][j]:
             line.append(rats(row))
@@ -481,15 +534,19 @@ def run_case(case):
         exp = model_side(case)
         branches.add('format%d' % case['fmt'])
         branches.add('flux_monotone' if case['mono'] else 'flux_arbitrary')
-        on_knot = exp['error'] is None and abs(exp['below_m']) < MARGIN or exp['error'] == 'tooSmall' and case['rkind'] == 'on_knot'
+        lb = lower_bound(case)
+        near = exp['error'] is None and abs(exp['below_m']) < MARGIN or exp['error'] == 'tooSmall' and lb['near']
+        # theta*dmin on the smallest aperture: in the quantifier ('not below'); a result is due whenever the float64
+        # evaluation of the radius as the property states it accepts it too - otherwise a margin case
+        strict = near and lb['in_quant'] and lb['accept_ref']
+        on_knot = near and not strict
+        if strict:
+            branches.add('theta_dmin_on_knot_strict')
         if case['dmin'] == case['dmax']:
             # a single trial distance is used as given (no 10**log10 round trip): when theta*(d*1000) IS a tabulated
             # aperture both exactly and in the code's floats, the tabulated value is expected - not a margin case
             dpc = float((case['dmin'] * u.kpc).to(u.pc).value)
             radii = [t * dpc for t in case['thetas']]
-            if exp['error'] is None and exp['below_m'] == 0. and all(r >= a[0] for r, a in zip(radii, case['aps'])) \
-                    and all(exact_product(t, case['dmin']) for t in case['thetas']):
-                on_knot = False
             if not on_knot and exp['error'] is None:
                 for r, a in zip(radii, case['aps']):
                     if len(a) >= 3 and r in a:
